@@ -16,3 +16,13 @@ impl<T> SIter<T> {
 }
 // ASSUMED: what a `for` loop / a drain over this iterator visits is its ghost sequence
 #[verifier::external_body] pub broadcast proof fn ax_yields_siter<T>(it: &SIter<T>) ensures #[trigger] yields(it) == it.sq() {}
+impl<T> SIter<T> {
+    // map: if the closure's result for x is always g(x), the whole yields g over the elements
+    #[verifier::external_body] pub fn map<U, F: FnMut(T) -> U>(self, f: F) -> (r: SIter<U>)
+        requires forall|x: T| call_requires(f, (x,)),
+        ensures forall|g: spec_fn(T) -> U| (forall|x: T, u: U| #[trigger] call_ensures(f, (x,), u) ==> u == g(x)) ==> r.sq() == #[trigger] self.sq().map_values(g) { unimplemented!() }
+    #[verifier::external_body] pub fn collect<B: FromSeq<T>>(self) -> (r: B) ensures B::is_from(self.sq(), &r) { unimplemented!() }
+}
+// what `collect()` builds from the yielded sequence
+pub trait FromSeq<T>: Sized { spec fn is_from(s: Seq<T>, r: &Self) -> bool; }
+impl<T> FromSeq<T> for Vec<T> { open spec fn is_from(s: Seq<T>, r: &Self) -> bool { r@ == s } }
